@@ -110,3 +110,7 @@ package core
 //@   loop 0:
 //@     invariant 0 <= len(data) && len(data) <= n
 //@     decreases n - len(data)
+
+//@ func NewObjectStream results (os, err)
+//@   property C02
+//@   ensures well_formed: !err ==> os.first >= 0 && os.n >= 0
